@@ -173,16 +173,24 @@ def isAlnumU (c : UInt8) : Bool :=
 inductive Part | host | ns | model | tag
   deriving DecidableEq
 
+/-- the `switch s[i]` of `isValidPart` for i > 0 -/
+def restC (kind : Part) (c : UInt8) : Bool :=
+  if c == 0x5f || c == 0x2d then true
+  else if c == 0x2e then kind != .ns
+  else if c == 0x3a then kind == .host
+  else isAlnumU c
+
 def validRest (kind : Part) : Bytes → Bool
   | [] => true
-  | c :: cs =>
-    (if c == 0x5f || c == 0x2d then true
-     else if c == 0x2e then kind != .ns
-     else if c == 0x3a then kind == .host
-     else isAlnumU c) && validRest kind cs
+  | c :: cs => restC kind c && validRest kind cs
+
+def Part.ofIdx : Nat → Part
+  | 0 => .host | 1 => .ns | 2 => .model | _ => .tag
+
+def Part.maxLen (kind : Part) : Nat := if kind = .host then 350 else 80
 
 def isValidPart (kind : Part) (s : Bytes) : Bool :=
-  decide (s.length ≤ (if kind = .host then 350 else 80)) &&
+  decide (s.length ≤ kind.maxLen) &&
   match s with
   | [] => true
   | c :: cs => isAlnumU c && validRest kind cs
@@ -311,6 +319,16 @@ def link (hash : Bytes → Digest) (fixed : Bool) (k : Disk) (name : Bytes) (d :
         let r := copyNamedEffs hash (manGet k.mans p) d f.length ⟨[f], .eof⟩
         ({ k with mans := manSet k.mans p (run r.1 (manGet k.mans p)) }, r.2)
 
+/-- `Link` with the zero-length refusal of proposed_fixes/C08-F8-zero.patch in front (`zc = true`): after the
+    name check and the open, a zero-length blob file is refused with `fs.ErrNotExist` unless `d` is the digest
+    of the empty string.  `zc = false` is `link`. -/
+def linkZ (hash : Bytes → Digest) (zc fixed : Bool) (k : Disk) (name : Bytes) (d : Digest) : Disk × Res :=
+  match nameToPath name with
+  | none => (k, .invalidName)
+  | some _ =>
+    if zc = true ∧ k.blob d = some [] ∧ d ≠ hash [] then (k, .notExist)
+    else link hash fixed k name d
+
 /-- `Unlink(name)` -/
 def unlink (k : Disk) (name : Bytes) : Disk × Out :=
   match nameToPath name with
@@ -395,20 +413,20 @@ inductive Op
   | chunk (d : Digest) (size start stop : Nat) (cd : Digest) (s : Script)
   deriving Repr
 
-def stepOp (hash : Bytes → Digest) (fixed : Bool) (k : Disk) : Op → Disk × Out
+def stepOp (hash : Bytes → Digest) (fixed zc : Bool) (k : Disk) : Op → Disk × Out
   | .put d size s => let r := put hash k d size s; (r.1, .res r.2)
   | .importB size s => importB hash k size s
   | .get d => (k, getB k d)
-  | .link name d => let r := link hash fixed k name d; (r.1, .res r.2)
+  | .link name d => let r := linkZ hash zc fixed k name d; (r.1, .res r.2)
   | .unlink name => unlink k name
   | .resolve name => resolve hash k name
   | .chunk d size a b cd s => let r := chunk hash k d size a b cd s; (r.1, .res r.2)
 
-def runOps (hash : Bytes → Digest) (fixed : Bool) : List Op → Disk → Disk × List Out
+def runOps (hash : Bytes → Digest) (fixed zc : Bool) : List Op → Disk → Disk × List Out
   | [], k => (k, [])
   | op :: ops, k =>
-    let r := stepOp hash fixed k op
-    let rest := runOps hash fixed ops r.1
+    let r := stepOp hash fixed zc k op
+    let rest := runOps hash fixed zc ops r.1
     (rest.1, r.2 :: rest.2)
 
 /-! ## crash points as the strace driver enumerates them -/
